@@ -21,14 +21,16 @@ Inductive regop :=
 | CreateGateway (g : gway) | UpdateGateway (g : gway) | DeleteGateway (e : N) | GetGateway (e : N) | GetGatewayList
 | CreateUpstreamMessage (m : upm) | ListUpstreamMessages (e : N) (limit : Z)
 | CreateDownstreamMessage (m : downm) | DeleteDownstreamMessage (e : N) (created : Z) | ListDownstreamMessages (e : N)
-| Reopen.
+| Reopen
+| AdvanceFCntUp (e accepted newfup : N) (kw : bool) | NextFCntDn (e : N).
 
 Inductive regres :=
 | ROk | RNotFound | RFailed
 | RApp (a : rapp) | RApps (l : list rapp)
 | RDev (d : rdev) (nonces : list N) | RDevs (l : list (rdev * list N))
 | RGw (g : gway) | RGws (l : list gway)
-| RUps (l : list upm) | RDowns (l : list downm).
+| RUps (l : list upm) | RDowns (l : list downm)
+| RCnt (c : N).
 
 (* which values are representable in the Go types *)
 Definition text_ok (s : list N) : bool := bytes_ok s.
@@ -62,4 +64,6 @@ Definition regop_ok (o : regop) : bool :=
   | ListUpstreamMessages e _ => eui_ok e
   | CreateDownstreamMessage m => down_ok m
   | DeleteDownstreamMessage e c => eui_ok e && i64_ok c
+  | AdvanceFCntUp e a nf _ => eui_ok e && (a <? 65536) && (nf <? 65536)
+  | NextFCntDn e => eui_ok e
   end.
